@@ -130,6 +130,11 @@ def install_async_hooks(ctx, events):
                     events.append(('admit', args[1]))
                     return UNIT
                 hooks[f.name] = add_hook
+            if ity == 'InboundQueryService' and f.method != 'add_allowed_room' and any(t in f.method for t in ('remove', 'revoke', 'disallow', 'forbid')):
+                def rm_hook(ctx_, args):
+                    events.append(('revoke', args[1]))
+                    return UNIT
+                hooks[f.name] = rm_hook
             if ity == 'LocalPeerService' and f.method == 'send_event':
                 def se_hook(ctx_, args):
                     events.append(('remote-event', args[1]))
@@ -272,6 +277,24 @@ def explore_admission(ctx, shape, tier, report):
                 report.violation(ctx, m, 'room-admitted-for-non-member', info)
         else:
             report.witness('not-admitted')
+            # a former member: the room may have been admitted on this connection earlier; it must not stay readable
+            revoked = [e for e in events if e[0] == 'revoke' and seq(deref(e[1]), ev1.id) is not False]
+            if revoked and report.want_sample(False):
+                # the revocation is also exercised on the real service task: the room was readable before the event and is not afterwards
+                ms = ctx.check_sat(zand(znot(seq(key, S(lit=b''))), robust_now(ctx, now, all_dates([ev1]))))
+                if ms is not None:
+                    sc = scenario(ctx, ms, 'sample', info)
+                    sc['kind'] = 'room_revocation'
+                    sc['expect'] = dict(served_before=True, served_after=False)
+                    report.sample(sc)
+            if not revoked:
+                mem = is_member(ev1, key, now)
+                nonempty = znot(seq(key, S(lit=b'')))
+                m = ctx.check_sat(zand(znot(mem), nonempty, robust_now(ctx, now, all_dates([ev1])))) or ctx.check_sat(zand(znot(mem), nonempty))
+                if m is not None:
+                    info['admitted'] = False
+                    info['former'] = True
+                    report.violation(ctx, m, 'room-stays-readable-for-former-member', info)
 
     try:
         ctx.explore(path)
@@ -298,6 +321,13 @@ def scenario(ctx, m, kind, info):
     if part == 'admission':
         sc = dict(kind='local_event_admission', property='C08', rooms=[c.room(ev) for ev in info['rooms']], key=c.atom(info['key']), model_now=c.int(info['now']))
         if kind == 'sample':
+            return sc
+        if info.get('former'):
+            sc['kind'] = 'room_revocation'
+            sc['expect'] = dict(served_before=True, served_after=True)
+            sc['what'] = ('a room-definition change after which the connected key is no longer an enabled member leaves the room in the set this connection may read: '
+                          'the former member is still served the room (RoomNode request answered) until it disconnects')
+            sc['signature'] = 'room-stays-readable-for-former-member'
             return sc
         sc['expect'] = dict(admitted=True)
         sc['what'] = 'a room-definition change admits the room for a connected key that is not an enabled member at that time (has an entry, but disabled or not yet valid)'
